@@ -6,7 +6,9 @@ import (
 	"errors"
 	"fmt"
 	"io"
+	"runtime"
 	"strconv"
+	"sync"
 	"testing"
 	"time"
 
@@ -20,7 +22,7 @@ import (
 )
 
 func TestMain(m *testing.M) {
-	vh.Rule("rapid: histories of 1..4 responses on one channel; each with 0..6 EED packages (info / non-info) and 0..3 ENVCHANGE packages of 0..3 members (all four types, PACKSIZE with legal sizes) at any statement boundary (info EED and ENVCHANGE also between rows), any packetisation (so special packages are parsed, rolled back and re-parsed), 0..3 message hooks and 0..3 environment hooks registered before or between responses, and a consumer that either reads package by package right after every packet (ordering) or uses NextPackageUntil with a callback that fails at package k. One global event log (hook calls and consumer receipts with sequence numbers). Oracle: every hook gets every non-info EED exactly once, equal, in arrival order, in registration order, before the consumer gets any later package; info EEDs and ENVCHANGE never delivered, info EEDs never hooked; every member reported once to every env hook with (type, old, new); PacketSize() = last announced size; a failing callback's error matches the callback error and, if EEDs preceded, is an *EEDError starting with exactly those EEDs. Non-trivial: >= 1 EED or member and a cut inside or right after a special package; distinct by the history")
+	vh.Rule("rapid: histories of 1..4 responses on one channel; each with 0..6 EED packages (info / non-info) and 0..3 ENVCHANGE packages of 0..3 members (all four types, PACKSIZE with legal sizes) at any statement boundary (info EED and ENVCHANGE also between rows), any packetisation (so special packages are parsed, rolled back and re-parsed), 0..3 message hooks and 0..3 environment hooks registered before or between responses, and a consumer that either reads package by package right after every packet (ordering) or uses NextPackageUntil with a callback that fails at package k (started after the response has arrived, or polling with wait=false from its own goroutine while the packets arrive). One global event log (hook calls and consumer receipts with sequence numbers). Oracle: every hook gets every non-info EED exactly once, equal, in arrival order, in registration order, before the consumer gets any later package; info EEDs and ENVCHANGE never delivered, info EEDs never hooked; every member reported once to every env hook with (type, old, new); PacketSize() = last announced size; a failing callback's error matches the callback error and, if EEDs preceded, is an *EEDError starting with exactly those EEDs. Non-trivial: >= 1 EED or member and a cut inside or right after a special package; distinct by the history")
 	vh.Assume("'all messages received so far' is read as 'delivered before the failing package' (EEDs drained afterwards may or may not be included); hooks registered while a response is in flight are not generated; PACKSIZE values are decimal numbers in 256..65535")
 	vh.Main(m, "C11")
 }
@@ -32,6 +34,9 @@ type round struct {
 	Cuts        []int  `json:"cuts"`
 	FailAt      int    `json:"fail_at"` // -1: read package by package; k>=0: NextPackageUntil whose callback fails at its k-th invocation
 	WrapEOF     bool   `json:"callback_error_wraps_eof"`
+	// Poll: (with FailAt >= 0) the consumer polls with wait=false from its own goroutine while
+	// the packets are still arriving, instead of starting after the whole response is there
+	Poll bool `json:"consumer_polls_while_packets_arrive"`
 }
 
 type c11Case struct {
@@ -68,6 +73,7 @@ func runCase(c c11Case) (f *vh.Failure) {
 	if err != nil {
 		vh.HarnessBug("NewChannel: %v", err)
 	}
+	var mu sync.Mutex
 	var log []event
 	seq := 0
 	nEED, nEnv := 0, 0
@@ -78,8 +84,10 @@ func runCase(c c11Case) (f *vh.Failure) {
 			id := nEED
 			nEED++
 			if err := ch.RegisterEEDHooks(func(e tds.EEDPackage) {
+				mu.Lock()
 				seq++
 				log = append(log, event{seq: seq, kind: "eed", hook: id, eed: e})
+				mu.Unlock()
 			}); err != nil {
 				return vh.Failf("C11/register", "RegisterEEDHooks: %v", err)
 			}
@@ -88,8 +96,10 @@ func runCase(c c11Case) (f *vh.Failure) {
 			id := nEnv
 			nEnv++
 			if err := ch.RegisterEnvChangeHooks(func(t tds.EnvChangeType, o, n string) {
+				mu.Lock()
 				seq++
 				log = append(log, event{seq: seq, kind: "env", hook: id, typ: t, old: o, new: n})
+				mu.Unlock()
 			}); err != nil {
 				return vh.Failf("C11/register", "RegisterEnvChangeHooks: %v", err)
 			}
@@ -110,10 +120,55 @@ func runCase(c c11Case) (f *vh.Failure) {
 				log = append(log, event{seq: seq, kind: "recv", pkg: p})
 			}
 		}
+		var cbErr error
+		var cbSeen int
+		until := func() {
+			wctx, wcancel := context.WithTimeout(bg, 2*time.Second)
+			defer wcancel()
+			calls := 0
+			for {
+				_, err := ch.NextPackageUntil(wctx, false, func(p tds.Package) (bool, error) {
+					mu.Lock()
+					seq++
+					log = append(log, event{seq: seq, kind: "recv", pkg: p})
+					mu.Unlock()
+					calls++
+					if calls-1 == r.FailAt {
+						if r.WrapEOF {
+							// still "an error that is not an unwrapped io.EOF"
+							return false, fmt.Errorf("%w: %w", errCB, io.EOF)
+						}
+						return false, errCB
+					}
+					d, ok := p.(*tds.DonePackage)
+					return ok && d.Status == tds.TDS_DONE_FINAL, nil
+				})
+				if r.Poll && errors.Is(err, tds.ErrNoPackageReady) && wctx.Err() == nil {
+					runtime.Gosched()
+					continue
+				}
+				cbErr, cbSeen = err, calls
+				return
+			}
+		}
+		polled := make(chan struct{})
+		if r.FailAt >= 0 && r.Poll {
+			go func() { defer close(polled); until() }()
+		}
 		for _, p := range rc.Packetise(stream, r.Cuts, rc.BufResponse, 0) {
 			ch.WritePacket(&tds.Packet{Header: tds.PacketHeader{MsgType: tds.TDS_BUF_RESPONSE, Status: tds.PacketHeaderStatus(p.Status), Length: uint16(8 + len(p.Body))}, Data: p.Body})
 			if r.FailAt < 0 {
 				recv()
+			} else if r.Poll {
+				// give the polling consumer a chance to see what has arrived so far
+				time.Sleep(30 * time.Microsecond)
+			}
+		}
+		if r.FailAt >= 0 && r.Poll {
+			select {
+			case <-polled:
+			case <-time.After(5 * time.Second):
+				return vh.Failf("C11/consumer-blocked", "%s: the polling consumer did not finish", where)
 			}
 		}
 		// expectations
@@ -138,31 +193,8 @@ func runCase(c c11Case) (f *vh.Failure) {
 				eedPos = append(eedPos, i)
 			}
 		}
-		var cbErr error
-		var cbSeen int
-		if r.FailAt >= 0 {
-			wctx, wcancel := context.WithTimeout(bg, 2*time.Second)
-			calls := 0
-			for {
-				_, err := ch.NextPackageUntil(wctx, false, func(p tds.Package) (bool, error) {
-					seq++
-					log = append(log, event{seq: seq, kind: "recv", pkg: p})
-					calls++
-					if calls-1 == r.FailAt {
-						if r.WrapEOF {
-							// still "an error that is not an unwrapped io.EOF"
-							return false, fmt.Errorf("%w: %w", errCB, io.EOF)
-						}
-						return false, errCB
-					}
-					d, ok := p.(*tds.DonePackage)
-					return ok && d.Status == tds.TDS_DONE_FINAL, nil
-				})
-				cbErr = err
-				cbSeen = calls
-				break
-			}
-			wcancel()
+		if r.FailAt >= 0 && !r.Poll {
+			until()
 		}
 		round := log[start:]
 		// 1. message hooks
@@ -350,6 +382,7 @@ func TestHooks(t *testing.T) {
 			if rapid.IntRange(0, 2).Draw(rt, "until") == 0 {
 				r.FailAt = rapid.IntRange(0, 6).Draw(rt, "failat")
 				r.WrapEOF = rapid.IntRange(0, 2).Draw(rt, "wrapeof") == 0
+				r.Poll = rapid.IntRange(0, 2).Draw(rt, "poll") == 0
 			}
 			c.Rounds = append(c.Rounds, r)
 		}
